@@ -208,6 +208,10 @@ def captured_programs():
 
 
 def replay(case):
+    if "carriers" in case:
+        from vlib import carriers
+
+        return carriers.replay(case, "c05")
     data = bytes.fromhex(case["hex"])
     if case.get("plain"):
         return replay_plain(data)
@@ -242,10 +246,16 @@ def shards(tier):
     out += [{"kind": "captured", "n": 300 if tier == "quick" else 8000, "idx": i} for i in range(4)]
     runs = 30000 if tier == "quick" else 1500000
     out += [{"kind": "atheris", "runs": runs, "idx": i} for i in range(1 if tier == "quick" else 6)]
+    # what is decompiled is the pickle the caller pointed at, whatever object carries the bytes
+    out += [{"kind": "carriers"}]
     return out
 
 
 def run_shard(spec, seed):
+    if spec["kind"] == "carriers":
+        from vlib import carriers
+
+        return carriers.run_shard(ShardResult(), "c05")
     if spec["kind"] == "atheris":
         import os
 
